@@ -1,3 +1,4 @@
+import ast
 """C10 -- significant and bracketed durations locate threshold crossings exactly (structure of the masks)."""
 from ..tyob import *  # noqa
 from ..tyob import analyse, expect, item, unmodelled_in, check_forwarder, only_managed_reads
@@ -143,6 +144,21 @@ def run(chk):
                 continue
             main = [v for v in rets if not _is_fallback(v)]
             fb = [v for v in rets if _is_fallback(v)]
+            # a design with an explicit emptiness test whose two outcomes are joined before the return (first = last = None; duration = 0 ...)
+            # is looked at once per outcome: the test forced "empty" must give the fallback, forced "not empty" the bracket
+            etests = [(n, pol) for n in ast.walk(r.fi.node) if isinstance(n, ast.If) for pol in [_emptiness_polarity(n.test)] if pol is not None]
+            if etests and not fb:
+                per = {}
+                for empty in (True, False):
+                    def setup(I, empty=empty):
+                        def oracle(fr, node):
+                            pol = _emptiness_polarity(node.test) if fr.fi is r.fi else None
+                            return None if pol is None else (empty == pol)
+                        I.branch_oracle = oracle
+                        I.oracle_first = True
+                    per[empty] = analyse(chk, q, build, setup=setup).returns()
+                fb = per[True]
+                main = per[False]
             chk.ob("R-ENDS", c + "[fallback]", "a fallback return %s exists for the no-exceedance case" % ("(None, None)" if se else "0"),
                    len(fb) == 1 and _fallback_ok(fb[0], se), derived="%d fallback return(s)" % len(fb), loc=r.fi.loc())
             if len(main) != 1:
@@ -155,6 +171,25 @@ def run(chk):
     chk.floor("R-REL", 40)
     chk.floor("R-ENDS", 28)
     chk.floor("R-MEASURE", 17)
+
+
+def _emptiness_polarity(t):
+    """True when the test holds for an EMPTY selection (len(x) == 0, not len(x), x.size == 0), False when it holds for a non-empty one
+    (len(x), len(x) > 0, len(x) != 0), None when it is no emptiness test"""
+    def is_len(e):
+        return (isinstance(e, ast.Call) and ast.unparse(e.func) == "len" and len(e.args) == 1) or (isinstance(e, ast.Attribute) and e.attr == "size")
+    if isinstance(t, ast.UnaryOp) and isinstance(t.op, ast.Not):
+        p = _emptiness_polarity(t.operand)
+        return None if p is None else (not p)
+    if is_len(t):
+        return False
+    if isinstance(t, ast.Compare) and len(t.ops) == 1 and is_len(t.left) and isinstance(t.comparators[0], ast.Constant):
+        k, op = t.comparators[0].value, type(t.ops[0]).__name__
+        if (op, k) in (("Eq", 0), ("Lt", 1), ("LtE", 0)):
+            return True
+        if (op, k) in (("Gt", 0), ("GtE", 1), ("NotEq", 0)):
+            return False
+    return None
 
 
 def _is_fallback(v):
